@@ -15,9 +15,17 @@
 #ifndef VERIF_C08_BOX_WIDEN_H
 #define VERIF_C08_BOX_WIDEN_H
 #include "../C03/box_base.h"
-#if defined(VERIF_CBMC)
-#define STOPS ((const T_u *)&BOX_STOPS)      /* the function's own static table (ll2c wraps arrays in a struct) */
-#define NSTOP ((uint32_t)(sizeof(BOX_STOPS) / sizeof(T_u)))
+#if defined(VERIF_NATIVE)
+/* the function's own static table, by its linker name (an assembler-level alias: the table is defined in this
+   same translation unit, so a second C declaration with an asm label would clash with it) */
+__asm__(".set real_box_stops, " VSTR(BOX_STOPS));
+extern "C" T_u real_box_stops[5];
+# define STOPS real_box_stops
+# define NSTOP 5u
+#else
+# define STOPS ((const T_u *)&BOX_STOPS)      /* the function's own static table (ll2c wraps arrays in a struct) */
+# define NSTOP ((uint32_t)(sizeof(BOX_STOPS) / sizeof(T_u)))
+#endif
 #include "interval_widen.h"
 extern uint32_t G_tokens, G_tokens0; extern int G_plain_changed; extern uint32_t G_fy0;
 SPEC int box_contains_sets(void) { return G_emptyY0 || (!G_emptyX0 && ALLK(set_contains(&G_xs[0], &G_ys[0]), set_contains(&G_xs[1], &G_ys[1]))); }
@@ -30,10 +38,7 @@ SPEC int box_untouched(const BOX_T *x) {         /* representation unchanged (in
   return BOX_FLAGS(x) == G_fx0 && (b_marked_empty(x) || ALLK(ITV_BITS(&G_xs[0]) == ITV_BITS(&G_xs0[0]) && ITV_LO(&G_xs[0]) == ITV_LO(&G_xs0[0]) && ITV_HI(&G_xs[0]) == ITV_HI(&G_xs0[0]),
                                                              ITV_BITS(&G_xs[1]) == ITV_BITS(&G_xs0[1]) && ITV_LO(&G_xs[1]) == ITV_LO(&G_xs0[1]) && ITV_HI(&G_xs[1]) == ITV_HI(&G_xs0[1])));
 }
-#define CC76_BOX_CONTRACT(FN) void FN(BOX_T *x, const BOX_T *y, uint32_t *tp) \
-  PRE_BXY PRE(y_in_x, box_contains_sets()) PRE(stop_points_sorted, NSTOP == ST_N && stops_sorted()) \
-  PRE(tokens, tp == 0 || tp == &G_tokens) \
-  ASSIGNS(FRAME_B, G_tokens) \
+#define C_b_cc76_POSTS(R) \
   POST(upper_bound, !G_satX0 || box_sat(x, G_xs)) \
   POST(x_wf, box_wf(x, G_xs)) POST(y_wf, box_wf(y, G_ys)) POST(y_keeps_its_points, !G_satY0 || box_sat(y, G_ys)) \
   POST(certificate_never_grows, (tp != 0 && G_tokens0 > 0) || G_emptyY0 || box_cert_le()) \
@@ -41,7 +46,12 @@ SPEC int box_untouched(const BOX_T *x) {         /* representation unchanged (in
        || (ALLK(set_eq(&G_xs[0], &G_ys[0]), set_eq(&G_xs[1], &G_ys[1])) || box_cert(G_xs) < box_cert(G_ys))) \
   POST(tokens_object_unchanged, !(tp != 0 && G_tokens0 > 0) || box_same_as_entry(x)) \
   POST(token_consumed_iff_plain_widening_loses_precision, !(tp != 0 && G_tokens0 > 0) || G_tokens == G_tokens0 - (G_plain_changed ? 1u : 0u)) \
-  POST(no_tokens_no_change_of_count, (tp != 0 && G_tokens0 > 0) || G_tokens == G_tokens0);
+  POST(no_tokens_no_change_of_count, (tp != 0 && G_tokens0 > 0) || G_tokens == G_tokens0)
+#if defined(VERIF_CBMC)
+#define CC76_BOX_CONTRACT(FN) void FN(BOX_T *x, const BOX_T *y, uint32_t *tp) \
+  PRE_BXY PRE(y_in_x, box_contains_sets()) PRE(stop_points_sorted, NSTOP == ST_N && stops_sorted()) \
+  PRE(tokens, tp == 0 || tp == &G_tokens) \
+  ASSIGNS(FRAME_B, G_tokens) C_b_cc76_POSTS(0);
 CC76_BOX_CONTRACT(FN_b_cc76)
 /* The same contract on the single-call extern "C" wrapper of the unit: goto-instrument --dfcc refuses an enforced
    function that calls itself, and CC76_widening_assign(y, tp) does (on a copy, without tokens) when tokens are
